@@ -9,6 +9,7 @@ CONSTANTS
   AfterSizes = {2, 11}
   ReqModes = {"page", "after", "before"}
   MaxN = 18
+  MaxN1 = 18
   MaxN2 = 18
   ScoresSorted = {0, 1, 2}
   ScoresOther = {0, 1}
